@@ -460,6 +460,52 @@ func srvClientCheck(o *common.Out, id, abstract string, rig *srvRig, reqs []sreq
 		return
 	}
 	defer cl.Close()
+	if len(reqs)%2 == 0 {
+		// an earlier call that its caller gave up (its context ended while the handler was still running) must not
+		// leave anything behind: the calls that follow each see their own outcome.  One P: whatever the client
+		// recycles per P is handed to the very next call.
+		prev := runtime.GOMAXPROCS(1)
+		defer runtime.GOMAXPROCS(prev)
+		rig.h.mu.Lock()
+		rig.h.gated = true
+		rig.h.mu.Unlock()
+		actx, acancel := context.WithCancel(context.Background())
+		adone := make(chan error, 1)
+		go func() {
+			var rp SReply
+			adone <- cl.Call(actx, "Arith", "Mul", &SArgs{Id: 8888, A: 1, B: 1, Mode: "ok"}, &rp)
+		}()
+		select {
+		case <-rig.h.entered:
+		case <-time.After(3 * time.Second):
+		}
+		acancel()
+		select {
+		case <-adone:
+		case <-time.After(3 * time.Second):
+		}
+		rig.h.release(8888)
+		select {
+		case <-rig.h.finished:
+		case <-time.After(3 * time.Second):
+		}
+		rig.h.mu.Lock()
+		rig.h.gated = false
+		rig.h.mu.Unlock()
+		// the abandoned call's response has been written by now; a round trip makes sure the client has read it
+		var rp SReply
+		bctx, bcancel := context.WithTimeout(context.Background(), 3*time.Second)
+		if err := cl.Call(bctx, "Arith", "Mul", &SArgs{Id: 8889, A: 3, B: 5, Mode: "ok"}, &rp); err != nil || rp.C != 15 {
+			o.Fail(id, "wrong-result", fmt.Sprintf("the call after an abandoned call: err=%v reply=%+v want C=15", err, rp), abstract)
+		}
+		bcancel()
+		for len(rig.h.entered) > 0 {
+			<-rig.h.entered
+		}
+		for len(rig.h.finished) > 0 {
+			<-rig.h.finished
+		}
+	}
 	for i, q := range reqs {
 		if q.hb || q.ow || q.ser != 1 || q.badJSON {
 			continue
